@@ -1017,3 +1017,7 @@ mod child_send_tests {
         properties.get_join_handle().unwrap().await.unwrap();
     }
 }
+
+#[cfg(slawlor_ractor_verif)]
+#[path = "/verif/hooks/factory_worker.rs"]
+pub mod verif_probe;
